@@ -35,7 +35,7 @@ def load_contracts():
 
 
 def _run_unit(args):
-    name, opts = args
+    name, opts, start, split = args
     from txvc.contracts import REGISTRY
     from txvc.interp import verify_unit
     from txvc.world import World
@@ -44,11 +44,11 @@ def _run_unit(args):
     unit = REGISTRY[name]
     w = World()
     try:
-        res = verify_unit(w, unit, opts)
+        res = verify_unit(w, unit, opts, start=start, split=split)
     except Exception as e:  # engine crash
         return {"unit": name, "errors": [("crash", f"{type(e).__name__}: {e}\n{traceback.format_exc(limit=6)}")],
                 "obligs": [], "paths": 0, "ended": 0, "solver_time": 0, "wall": 0, "bounded": False,
-                "hash": "", "outcomes": {}}
+                "hash": "", "outcomes": {}, "remaining": []}
     obl = []
     for ob in res.obligs:
         obl.append({
@@ -59,7 +59,22 @@ def _run_unit(args):
         })
     return {"unit": name, "errors": res.errors, "obligs": obl, "paths": res.paths, "ended": res.ended,
             "solver_time": res.solver_time, "wall": res.wall, "bounded": res.bounded,
-            "hash": res.source_hash, "outcomes": res.outcomes, "target": unit.target}
+            "hash": res.source_hash, "outcomes": res.outcomes, "target": unit.target,
+            "remaining": res.remaining}
+
+
+def _merge(a, b):
+    """merge the result of a sub-exploration b into a (same unit)"""
+    a["errors"].extend(b["errors"])
+    a["obligs"].extend(b["obligs"])
+    a["paths"] += b["paths"]
+    a["ended"] += b["ended"]
+    a["solver_time"] += b["solver_time"]
+    a["wall"] = max(a["wall"], b["wall"])
+    a["bounded"] = a["bounded"] or b["bounded"]
+    for k, v in b.get("outcomes", {}).items():
+        a["outcomes"][k] = a["outcomes"].get(k, 0) + v
+    return a
 
 
 def known_findings():
@@ -103,7 +118,7 @@ def main(argv=None):
         return propmod.run_replay(pid, a.replay)
 
     units = [u for u in reg.values() if pid in u.props and not u.trusted]
-    opts = {"timeout_ms": 10000 if tier == "quick" else 60000, "tier": tier, "seed": seed}
+    opts = {"timeout_ms": 10000 if tier == "quick" else 60000, "tier": tier, "seed": seed, "prop": pid}
     results = []
     if units:
         jobs = max(1, min(a.jobs, len(units)))
@@ -112,12 +127,31 @@ def main(argv=None):
             o = dict(opts)
             if u.bounded:
                 o["unroll"] = u.bounded + (1 if tier == "thorough" else 0)
-            work.append((u.name, o))
+            work.append((u.name, o, None, 16))
+        jobs = max(1, a.jobs)
         if jobs == 1:
-            results = [_run_unit(w) for w in work]
+            results = [_run_unit((w[0], w[1], None, None)) for w in work]
         else:
+            # phase 1: explore each unit until 16 prefixes are pending; phase 2:
+            # the pending subtrees of all units share the worker pool
             with mp.get_context("fork").Pool(jobs) as pool:
                 results = pool.map(_run_unit, work, chunksize=1)
+                byname = {r["unit"]: r for r in results}
+                optsof = {w[0]: w[1] for w in work}
+                tasks = []
+                for r in results:
+                    for script in r.pop("remaining", []) or []:
+                        tasks.append((r["unit"], optsof[r["unit"]], [script], 6))
+                rounds = 0
+                while tasks:
+                    rounds += 1
+                    nxt = []
+                    for sub in pool.imap_unordered(_run_unit, tasks, chunksize=1):
+                        _merge(byname[sub["unit"]], sub)
+                        for script in sub.get("remaining", []) or []:
+                            nxt.append((sub["unit"], optsof[sub["unit"]], [script],
+                                        6 if rounds < 6 else None))
+                    tasks = nxt
     extras = propmod.run_extras(pid, tier, seed)
 
     kf = known_findings()
@@ -137,8 +171,8 @@ def main(argv=None):
         for ob in r["obligs"]:
             if ob["kind"] == "CANARY":
                 n_canary += 1
-                if ob["result"] == "refuted":
-                    can_ok = True
+                if ob["result"] != "proved":
+                    can_ok = True  # a canary must never be PROVED (refuted or undecided is fine)
                 continue
             if ob["prop"] is not None and ob["prop"] != pid:
                 continue  # clause tagged for another property of a shared unit
